@@ -147,6 +147,15 @@ jobs:
     runs-on: ubuntu-latest
     steps:
       - run: echo ${{ «needs».«caller».«outputs».«cout» }} ${{ «needs».«prep».«result» }} ${{ «needs»['«prep»'].«outputs»['«pout»'] }}
+  «lbl»:
+    strategy:
+      matrix:
+        «rl»: [ubuntu-latest]
+        include:
+          - «rl»: macos-latest
+    runs-on: ${{ «matrix».«rl» }}
+    steps:
+      - run: echo
 `,
 }
 
@@ -166,6 +175,13 @@ var c08Noise = map[string]string{
 	"      - id: «s2»\n        uses: actions/checkout@v4\n": "      - uses: actions/github-script@v7\n        with:\n          «script»: console.log(${{ «github».«event».«pull_request».«title» }})\n          «github-token»: t\n      - id: «s2»\n        uses: actions/checkout@v4\n",
 	// untrusted inputs spelled with string indexes: reported in every letter case
 	"      - run: echo ${{ «contains»(«github».«event».«pull_request».«title», 'x') }}": "      - run: echo ${{ «github».«event».«pull_request»['«title»'] }} ${{ «github»['«head_ref»'] }} ${{ «github»['«event»']['«comment»']['«body»'] }}\n      - run: echo ${{ «contains»(«github».«event».«pull_request».«title», 'x') }}",
+}
+
+func init() {
+	// runner labels taken from the matrix (row and include element): unknown ones are reported
+	// whatever the case of the matrix key at its three places
+	c08Noise["        «rl»: [ubuntu-latest]\n"] = "        «rl»: [ubuntu-latest, nosuchrowlabel]\n"
+	c08Noise["          - «rl»: macos-latest\n"] = "          - «rl»: nosuchincludelabel\n"
 }
 
 type c08Occ struct {
